@@ -116,6 +116,8 @@ def species_list(v):
     from cherab.core import Species
     from cherab.core.atomic import deuterium, carbon
     amu = 1.66053906660e-27
+    if v == 3:
+        return []                 # the empty composition
     if v == 1:
         return [Species(deuterium, 0, _dist(1e17, 10.0, (0, 0, 0), 2 * amu)),
                 Species(deuterium, 1, _dist(1e19, 200.0, (1e4, 0, 0), 2 * amu, (0.3, 0.5))),
